@@ -453,6 +453,14 @@ def build(desc, parallel=True):
     return ds
 
 
+def close_iter(it):
+    """close() a generator-based iterator; a plain iterator object (legal for
+    __iter__ to return) is simply dropped"""
+    c = getattr(it, 'close', None)
+    if c is not None:
+        c()
+
+
 def norm(v):
     """Normalise a delivered value for comparison / JSON (tuples -> lists)."""
     if isinstance(v, dict):
